@@ -254,3 +254,18 @@ class GhostLock(object):
 
     def release(self):
         self.__exit__()
+
+
+class AbstractSeq(object):
+    """Base of abstract containers of symbolic length: usable only through a loop contract.  Any other traversal
+    (a comprehension, list(), len() ...) is outside what the contracts cover: the obligation is UNDECIDED, never a
+    program error."""
+
+    def __iter__(self):
+        raise Unsupported('%s traversed outside a loop contract' % type(self).__name__)
+
+    def __len__(self):
+        raise Unsupported('len() of %s outside a loop contract' % type(self).__name__)
+
+    def __getitem__(self, k):
+        raise Unsupported('indexing %s outside a loop contract' % type(self).__name__)
